@@ -175,14 +175,15 @@ func childMain() {
 
 type env struct {
 	root, cacheDir, self string
-	allHard              bool
+	allHard              bool   // replays: every crash is a real SIGKILL
+	hardOneIn            uint32 // generated tiers: one scenario in this many uses a real SIGKILL
 }
 
 type scenario struct {
 	e    *env
 	pkg  string
 	comp bool
-	hard bool // crashes by SIGKILL of a re-executed child (all scenarios in the thorough tier and in replays, a sample in quick)
+	hard bool // crashes by SIGKILL of a re-executed child (every replayed scenario; 1 in 6 in the thorough tier, 1 in 16 in quick)
 	outs []string
 }
 
@@ -339,7 +340,7 @@ func runScenario(e *env, pkg, line string) (res caseResult) {
 	hs := fnv.New32a()
 	hs.Write([]byte(line))
 	s := &scenario{e: e, pkg: pkg, comp: f[0] == "c"}
-	s.hard = e.allHard || hs.Sum32()%16 == 0
+	s.hard = e.allHard || hs.Sum32()%e.hardOneIn == 0
 	if f[1] != "-" {
 		for _, h := range strings.Split(f[1], ",") {
 			o, err := unhx(h)
@@ -554,7 +555,9 @@ func main() {
 	r := lib.Start()
 	defer r.Finish()
 	logging.SetBackend(logging.NewLogBackend(io.Discard, "", 0))
-	r.Rule = "scenario has a store that crashes, an interleaved retrieve, or a complete store of a tree with >= 2 entries; distinct by op line"
+	r.Rule = "scenario has a store that crashes, an interleaved retrieve, a damaged entry, or a complete store of a tree with >= 2 entries; distinct by op line. " +
+		"exhaustive=true (thorough tier) means: every parent-closed subset of the atom tree (104 shapes) in both modes; crash points are enumerated " +
+		"completely for 12 core shapes and sampled for the others"
 	self, err := os.Executable()
 	if err != nil {
 		panic(err)
@@ -574,13 +577,25 @@ func main() {
 	if err := os.Chdir(root); err != nil {
 		panic(err)
 	}
-	e := &env{root: root, cacheDir: filepath.Join(root, ".cache"), self: self, allHard: r.Thorough() || replay != nil}
+	e := &env{root: root, cacheDir: filepath.Join(root, ".cache"), self: self, allHard: replay != nil, hardOneIn: uint32(r.N(16, 6))}
 
 	var lines []string
 	if replay != nil {
 		lines = replay
 	} else {
 		lines = generate(r)
+	}
+	if os.Getenv("C12_COUNT") != "" { // development aid: size of the generated tier by scenario kind, nothing is run
+		crashes := 0
+		for _, l := range lines {
+			for _, a := range strings.Split(l, " ") {
+				if (strings.HasPrefix(a, "S/") || strings.HasPrefix(a, "X/")) && !strings.HasPrefix(a[2:], "-/") {
+					crashes++
+				}
+			}
+		}
+		fmt.Fprintf(os.Stderr, "lines=%d acts-with-a-crash-point=%d\n", len(lines), crashes)
+		os.Exit(0)
 	}
 	// scenarios are independent (one package each): run them on a worker pool, emit in order
 	results := make([]caseResult, len(lines))
